@@ -159,6 +159,11 @@ def check_gm(case):
         acc = int(acc)
     alg = sp.alg.GradientMethod(gradf, x, alpha, proxg=pg, accelerate=acc, max_iter=case["K"], tol=0)
     d0 = float(np.linalg.norm(x - xs) ** 2)
+    # the reference optimum is certified by its duality gap only: ||x_ref - x*|| <= sqrt(2 gap / mu_F) with mu_F the
+    # strong-convexity modulus of F; the prox-gradient map is non-expansive, so a start at x_ref may move by twice that
+    muF = float(np.linalg.eigvalsh(Am.conj().T @ Am)[0]) + (mu if gkind == "l2z" else 0.0)
+    gapc = max(float(ref.get("gap", 0.0)), 0.0) + 1e-15 * max(abs(float(ref["hi"])), 1.0)
+    opt_tol = 1e-8 * (1 + np.linalg.norm(xs)) + 2.0 * np.sqrt(2.0 * gapc / max(muF, 1e-300))
     F_prev = prob.F(x)
     scale = max(abs(Fs), abs(F_prev), 1e-12)
     slack = 1e-9 * scale + 1e-7 * max(F_prev - Fs, 0)
@@ -193,7 +198,7 @@ def check_gm(case):
                    "F(x_%d)-F* = %.6e exceeds the bound %.6e (alpha = %.3g/L, g = %s, A = %s)"
                    % (k, gap, bound, case["c"], case["g"], case["A"]))
             return r
-        if case["start"] == "optimum" and not np.linalg.norm(x_passed - xs) <= 1e-8 * (1 + np.linalg.norm(xs)):
+        if case["start"] == "optimum" and not np.linalg.norm(x_passed - xs) <= opt_tol:
             r.fail("gm:leaves-optimum", "started at x*, after update %d the iterate moved by %.3e"
                    % (k, np.linalg.norm(x_passed - xs)))
             return r
@@ -354,7 +359,9 @@ def check_pdhg(case):
             return r
         if case["start"] == "saddle" and k <= 2:
             mv = max(np.linalg.norm(x_passed - xs), np.linalg.norm(u_passed - us)) / (1 + np.linalg.norm(xs) + np.linalg.norm(us))
-            if not mv <= 1e-7:
+            # the reference saddle point is itself only a fixed point up to its certificate `kkt` (<= 1e-7, computed
+            # above as the movement of one exact step); two updates may amplify that by the step operators' norms
+            if not mv <= 1e-7 + 50 * kkt:
                 r.fail("pdhg:saddle-not-fixed:%s" % (case["accel"] or "plain"), "started at the saddle point, update %d moved the iterate by %.3e (relative)" % (k, mv))
                 return r
         if case["accel"] is None:
